@@ -45,6 +45,8 @@ SubValChoices(k) == IF ValMode = "keyed" THEN {SubKeyVal(k)} ELSE Vals
 \* The depth bound is a guard of every action (not a CONSTRAINT): TLC then
 \* never generates the out-of-bound frontier, whose states would otherwise be
 \* re-generated -- and re-dumped -- once per incoming transition.
+BadName == "<not a string>"
+ValueErr == -3
 DepthOK == TLCGet("level") < MaxDepth
 OnM(m) == m \in Muts /\ DepthOK
 OnQ(q) == q \in Queries /\ DepthOK
@@ -101,6 +103,14 @@ Next ==
           /\ act' = [op |-> "lookup", g |-> g, req |-> k[1],
                      prov |-> k[2], name |-> nm,
                      adm |-> Admissible(g, k[1], k[2], nm)]
+    \* a non-string name is rejected on every path, in every cache state, and
+    \* changes nothing (C08)
+    \/ \E g \in Regs, k \in LookKeys :
+          /\ OnQ("lookup")
+          /\ k[2] # PNone
+          /\ UNCHANGED vars
+          /\ act' = [op |-> "lookup", g |-> g, req |-> k[1],
+                     prov |-> k[2], name |-> BadName, adm |-> {ValueErr}]
     \/ \E g \in Regs, k \in LookKeys :
           /\ OnQ("lookupAll")
           /\ k[2] # PNone
@@ -125,7 +135,10 @@ Bound == /\ TLCGet("level") <= MaxDepth
 ObsOf(g) ==
     [look |-> {[req |-> k[1], prov |-> k[2], name |-> nm,
                 adm |-> Admissible(g, k[1], k[2], nm)] :
-                  k \in {kk \in LookKeys : kk[2] # PNone}, nm \in Names},
+                  k \in {kk \in LookKeys : kk[2] # PNone}, nm \in Names}
+              \cup
+              {[req |-> k[1], prov |-> k[2], name |-> BadName,
+                adm |-> {ValueErr}] : k \in {kk \in LookKeys : kk[2] # PNone}},
      subs |-> {[req |-> k[1], prov |-> k[2],
                 adm |-> SubsAdmSet(g, k[1], k[2])] : k \in LookKeys},
      regs |-> regs[g],
@@ -163,6 +176,8 @@ SB_Diamond == (0 :> <<>>) @@ (1 :> <<>>) @@ (2 :> <<1>>) @@ (3 :> <<1>>) @@
               (4 :> <<2, 3>>)
 \* provided: 1 PA, 2 PB(PA), 3 PC(PA)
 PB_Fork == << <<>>, <<1>>, <<1>> >>
+\* provided tree: 1 PRoot, 2 PBase(PRoot), 3 PSibling(PRoot), 4 PDerived(PBase)
+PB_Tree4 == << <<>>, <<1>>, <<1>>, <<2>> >>
 EqId == [v \in 1..4 |-> v]
 Eq12 == [v \in 1..3 |-> IF v <= 2 THEN 1 ELSE 2]   \* 1 == 2, 3 distinct
 NamesEN == {"", "n"}
@@ -213,5 +228,24 @@ RBaseChoices3s == {<<g, b>> : g \in 1..3,
 RBaseChoices4 == {<<g, b>> : g \in 1..4,
                     b \in {<<>>} \cup {<<h>> : h \in 1..4}
                          \cup {<<h, k>> : h \in 1..4, k \in 1..4}}
+\* ---- extendor order (C04): provided tree, every registration order
+RegKeysExt == {<< <<1>>, p, "" >> : p \in 1..4}
+LookKeysExt == {<< <<1>>, 1 >>, << <<1>>, 2 >>}
+\* ---- watched specifications of multi-adapter keys (C05)
+SB_Three == (0 :> <<>>) @@ (1 :> <<>>) @@ (2 :> <<1>>) @@ (3 :> <<>>)
+RegKeysWatch == {<< <<2, 1>>, 1, "" >>}
+SubKeysWatch == {<< <<2, 1>>, 1 >>}
+LookKeysWatch == {<< <<2>>, 1 >>, << <<2, 3>>, 1 >>}
+SBaseChoicesWatch == {<<3, <<>> >>, <<3, <<1>> >>}
+\* ---- registry diamond (C06): 1 top, 2 apex, 3 left, 4 right, 5 bottom
+RB_None5 == << <<>>, <<>>, <<>>, <<>>, <<>> >>
+RB_Diamond5 == << <<>>, <<>>, <<2>>, <<2>>, <<3, 4>> >>
+RBaseChoicesDiamond == {<<2, <<>> >>, <<2, <<1>> >>, <<3, <<>> >>, <<3, <<2>> >>,
+                        <<4, <<2>> >>, <<5, <<3, 4>> >>, <<5, <<4, 3>> >>,
+                        <<5, <<3>> >>}
+RegKeysDiamond == {<< <<1>>, 1, "" >>}
+\* ---- cached subscriptions under partial unsubscription (C07)
+SubKeysSubCache == {<< <<1>>, 1 >>, << <<1>>, 0 >>}
+LookKeysSubCache == {<< <<1>>, 1 >>, << <<1>>, 0 >>}
 None == {}
 =============================================================================
